@@ -78,6 +78,10 @@ func validateRun(cmd *cobra.Command, args []string) error {
 	// If single argument that looks like inline SQL (not a file), validate it directly
 	if len(args) == 1 {
 		if _, err := os.Stat(args[0]); err != nil && looksLikeSQL(args[0]) {
+			if validateOutputFormat == OutputFormatJSON || validateOutputFormat == OutputFormatSARIF {
+				// a machine-readable report was asked for: produce it for inline SQL too
+				return validateContent(cmd, []byte(args[0]), "inline")
+			}
 			return validateInlineSQL(cmd, args[0])
 		}
 	}
@@ -182,6 +186,13 @@ func validateFromStdin(cmd *cobra.Command) error {
 		return fmt.Errorf("stdin validation failed: %w", err)
 	}
 
+	return validateContent(cmd, content, "stdin")
+}
+
+// validateContent validates SQL text that did not come from a file (stdin, or SQL
+// given as the argument when a report was asked for) through the same validator and
+// report writers as files; the reports name it displayName.
+func validateContent(cmd *cobra.Command, content []byte, displayName string) error {
 	// Create a temporary file to leverage existing validation logic
 	tmpFile, err := os.CreateTemp("", "gosqlx-stdin-*.sql")
 	if err != nil {
@@ -232,7 +243,7 @@ func validateFromStdin(cmd *cobra.Command) error {
 	// (which no longer exists when the report is read)
 	for i := range result.Files {
 		if result.Files[i].Path == tmpFile.Name() {
-			result.Files[i].Path = "stdin"
+			result.Files[i].Path = displayName
 		}
 	}
 
@@ -252,7 +263,7 @@ func validateFromStdin(cmd *cobra.Command) error {
 			fmt.Fprintf(cmd.OutOrStdout(), "SARIF output written to %s\n", validateOutputFile)
 		}
 	case OutputFormatJSON:
-		jsonData, err := output.FormatValidationJSON(result, []string{"stdin"}, validateStats)
+		jsonData, err := output.FormatValidationJSON(result, []string{displayName}, validateStats)
 		if err != nil {
 			return fmt.Errorf("failed to generate JSON output: %w", err)
 		}
